@@ -111,7 +111,8 @@ def run(ctx):
         tcases += _cases(ctx.tlc("TextTab_gen.tla", "TextTab_gen_emit_thorough.cfg", timeout=3000, label="mc+gen"), "TextTab_gen_emit_thorough", 1000)
         tcases += _cases(ctx.tlc("TextTab_gen.tla", "TextTab_gen_sim.cfg", workers=8, simulate=1500, depth=14, timeout=3000,
                                  label="simulate+gen"), "TextTab_gen_sim", 1000)
-    tcases = vlib.dedupe(tcases)
+    # canonical order: the case number seeds the concretisation, TLC's print order varies
+    tcases = sorted(vlib.dedupe(tcases), key=lambda c: json.dumps(c, sort_keys=True))
     kcases = []
     if q:
         kcases += _cases(ctx.tlc("KeyHeader_gen.tla", "KeyHeader_gen_quick.cfg", timeout=900, label="mc+gen"), "KeyHeader_gen_quick", 1000)
@@ -120,7 +121,7 @@ def run(ctx):
         kcases += _cases(ctx.tlc("KeyHeader_gen.tla", "KeyHeader_gen_quick.cfg", timeout=900, label="mc+gen"), "KeyHeader_gen_quick", 1000)
         kcases += _cases(ctx.tlc("KeyHeader_gen.tla", "KeyHeader_gen_quick2.cfg", timeout=900, label="mc+gen"), "KeyHeader_gen_quick2", 1000)
         kcases += _cases(ctx.tlc("KeyHeader_gen.tla", "KeyHeader_gen_thorough.cfg", timeout=3000, label="mc+gen"), "KeyHeader_gen_thorough", 1000)
-    kcases = vlib.dedupe(kcases)
+    kcases = sorted(vlib.dedupe(kcases), key=lambda c: json.dumps(c, sort_keys=True))
     cases = tcases + kcases
     nsample = 0
     for i, c in enumerate(cases):
@@ -173,7 +174,7 @@ def run(ctx):
     lay = [e for e in rec if e["ev"] == "layout"]
     hdr = [e for e in rec if e["ev"] == "hdr"]
     content = [e for e in rec if e["ev"] == "content"]
-    if summ["runs"] < 10 or len(lay) < 10:
+    if summ["runs"] < 10 or (len(lay) < 10 and not content):
         raise vlib.Infra("benchstat recorder produced only %d runs / %d tables" % (summ["runs"], len(lay)))
     if content:
         # observed twice: the recorder is deterministic for a seed
